@@ -185,6 +185,32 @@ fn cond(args: &[&str]) -> String {
     fmt_msgs(&conditioner_batches(&batches))
 }
 
+/// `cond_long <total> <batch>`: a long-lived connection - `total` messages in batches of `batch` (one batch per receiver
+/// frame, channel = index % 3, payload = the index); the answer is `ok <n>` or the first place where a channel's order breaks.
+fn cond_long(args: &[&str]) -> String {
+    use bevy_replicon_example_backend::verif_hooks::conditioner_batches;
+    let total: u32 = args[0].parse().unwrap();
+    let batch: u32 = args[1].parse().unwrap();
+    let mut batches: Vec<Vec<(u8, Vec<u8>)>> = Vec::new();
+    let mut i = 0u32;
+    while i < total {
+        let n = batch.min(total - i);
+        batches.push((i..i + n).map(|k| ((k % 3) as u8, k.to_le_bytes().to_vec())).collect());
+        i += n;
+    }
+    let out = conditioner_batches(&batches);
+    let mut next = [0u32, 1, 2];
+    for (pos, (ch, m)) in out.iter().enumerate() {
+        let got = u32::from_le_bytes([m[0], m[1], m[2], m[3]]);
+        let want = next[*ch as usize % 3];
+        if got != want || *ch as u32 != got % 3 {
+            return format!("broken pos={pos} channel={ch} got={got} expected={want}");
+        }
+        next[*ch as usize % 3] += 3;
+    }
+    if out.len() as u32 != total { format!("broken count={} expected={total}", out.len()) } else { format!("ok {total}") }
+}
+
 /// `tcp <round/round/...>`: every round is written with `tcp::send_message` to a real loopback socket,
 /// then the receiver reads with `tcp::read_message` until it would block (after the data arrived).
 fn tcp(args: &[&str]) -> String {
@@ -451,6 +477,7 @@ fn handle(cmd: &str, args: &[&str]) -> String {
         "scene" => scene_kernel::scene_cmd(args),
         "vis" => vis(args),
         "cond" => cond(args),
+        "cond_long" => cond_long(args),
         "tcp" => tcp(args),
         "proto" => proto(args),
         "proto_names" => proto_names(),
